@@ -354,6 +354,47 @@ Qed.
 Theorem set_sep_keeps_trees s n v x : subtree (set_sep s n v) x = subtree s x.
 Proof. apply subtree_frame; [reflexivity|]. intros y _. split; reflexivity. Qed.
 
+(* ---------------- extend: the accepted prefix, one append at a time ---------------- *)
+Definition appends (p : id) (cs : list id) (s : forest) : forest :=
+  fold_left (fun st c => attach st c (Some p)) cs s.
+
+Lemma extend_ok cfg p : forall cs fts s s',
+  extend_loop cfg s p cs fts = (s', Ok) -> s' = appends p cs s.
+Proof.
+  induction cs as [|c cs IH]; intros fts s s' E; cbn [extend_loop] in E.
+  - injection E as <-. reflexivity.
+  - destruct (set_parent cfg (hd NoFault fts) s c (ANode p)) as [s1 o1] eqn:E1.
+    destruct o1 as [|e]; [|discriminate].
+    destruct (set_parent_cases cfg (hd NoFault fts) s c (ANode p)) as [[_ [H _]]|[[H _]|[H _]]];
+      rewrite E1 in H; cbn [fst snd] in H; try congruence.
+    subst s1. cbn [np_of] in E. unfold appends. cbn [fold_left]. apply (IH _ _ _ E).
+Qed.
+
+(* when extend raises, exactly the appends before the failing one are in place (the failing one is
+   rolled back: C02 assignment by assignment) *)
+Theorem extend_prefix cfg p : forall cs fts s s' e,
+  WF s -> (forall c, In c cs -> c < size s) -> p < size s ->
+  extend_loop cfg s p cs fts = (s', Err e) ->
+  exists done c rest, cs = done ++ c :: rest /\ same s' (appends p done s).
+Proof.
+  induction cs as [|c cs IH]; intros fts s s' e W Hcs Hp E; cbn [extend_loop] in E; [discriminate|].
+  destruct (set_parent cfg (hd NoFault fts) s c (ANode p)) as [s1 o1] eqn:E1.
+  destruct o1 as [|e1].
+  - destruct (set_parent_cases cfg (hd NoFault fts) s c (ANode p)) as [[_ [H [_ [HL _]]]]|[[H _]|[H _]]];
+      rewrite E1 in H; cbn [fst snd] in H; try congruence.
+    subst s1. cbn [np_of] in *.
+    assert (W1 : WF (attach s c (Some p))).
+    { apply attach_WF; [exact W|apply Hcs; left; reflexivity|]. intros p0 [= <-].
+      destruct (parent_loop_false s c (Some p) HL p eq_refl) as [H1 H2]. repeat split; assumption. }
+    destruct (IH (tl fts) _ s' e W1) as [done [c' [rest [Ecs Hs]]]]; [| |exact E|].
+    + intros x Hx. rewrite attach_size. apply Hcs. right. exact Hx.
+    + rewrite attach_size. exact Hp.
+    + exists (c :: done), c', rest. split; [cbn [app]; rewrite Ecs; reflexivity|exact Hs].
+  - injection E as <- <-. exists [], c, cs. split; [reflexivity|]. unfold appends. cbn [fold_left].
+    pose proof (set_parent_atomic cfg (hd NoFault fts) s c (ANode p) W) as Hat. rewrite E1 in Hat. cbn [fst snd] in Hat.
+    apply Hat. discriminate.
+Qed.
+
 (* ---------------- every accepted operation of the structural API is a tree edit ---------------- *)
 Definition surgery (s s' : forest) (c : id) (np : option id) : Prop :=
   subtree s' c = subtree s c
@@ -378,7 +419,7 @@ Definition edit_of (cfg : config) (s s' : forest) (o : op) : Prop :=
       let t := fold_left (fun st x => attach st x (Some p)) (ids_of args)
                  (fold_left (fun st x => attach st x None) (kids s p) s) in
       forall x, subtree s' x = subtree t x
-  | Extend _ _ _ => True      (* a sequence of Append steps (C02: assignment by assignment) *)
+  | Extend p cs _ => s' = appends p cs s      (* the Append steps one after the other, each a surgery *)
   end.
 
 Lemma set_parent_surgery cfg ft s c a s' :
@@ -404,7 +445,7 @@ Proof.
     apply subtree_same; assumption.
   - injection E as <-. apply (del_children_is_tree_cut s p W).
   - apply andb_true_iff in Hr as [H1 H2]. apply (set_parent_surgery cfg ft s c (ANode p) s' W H2 H1 E).
-  - exact I.
+  - apply (extend_ok cfg p cs fts s s' E).
   - apply andb_true_iff in Hr as [H1 H2]. apply (set_parent_surgery cfg ft s c (ANode p) s' W H2 H1 E).
   - apply andb_true_iff in Hr as [H1 H2]. apply (set_parent_surgery cfg ft s c (ANode p) s' W H2 H1 E).
   - destruct (is_node cfg); cbn [negb] in E; [|discriminate].
